@@ -136,6 +136,30 @@ def _spellings(case, ctx, res):
         o = attempt(lambda: osy.units(ref.value))
         if not o.ok or o.value != ref.value:
             res.violate("unit-passthrough", f"units(Unit) for {grp[0]!r}: {o.describe()}")
+    # near-identical spellings of DIFFERENT units, looked up in both orders within one process
+    near = [("m s", "m*s", "ms"), ("m G", "m*G", "mG"), ("k g", None, "kg"), ("c m", None, "cm"), ("m m", "m*m", "mm"),
+            ("g cm**-3", "g/cm**3", "gcm**-3"), ("k m", None, "km")]
+    rng = ctx.rng("spelling-order")
+    order = list(rng.permutation(len(near) * 2))
+    seen = {}
+    for idx in order:
+        a, canon, b = near[idx // 2]
+        sp = a if idx % 2 == 0 else b
+        seen[sp] = attempt(lambda: osy.units(sp))
+    for a, canon, b in near:
+        res.count("spelling")
+        ua, ub = seen[a], seen[b]
+        if canon is not None:
+            ref = attempt(lambda: osy.units(canon))
+            if ref.ok and (not ua.ok or ua.value != ref.value):
+                res.violate("spelling-differs", f"units({a!r}) is {ua.value if ua.ok else ua.describe()!s}, not units({canon!r}) = "
+                            f"{ref.value!s} (after {b!r} had possibly been looked up)")
+        if ua.ok and ub.ok and ua.value == ub.value and canon is not None:
+            res.violate("distinct-units-confused", f"units({a!r}) == units({b!r}) = {ua.value!s}")
+        if ub.ok:
+            again = attempt(lambda: osy.units(b))
+            if not again.ok or again.value != ub.value or scale_dims(again.value) != scale_dims(osy.units(b.replace(" ", ""))):
+                res.violate("spelling-differs", f"units({b!r}) not stable across lookups")
     # a Quantity is refused (documented)
     o = attempt(lambda: osy.units(1.0 * osy.units("m")))
     if o.ok:
